@@ -51,6 +51,7 @@ def parseEUFSteps (tt : Terms) : Nat → List String → List EUF.Step → Optio
     | "R" :: t :: r => (tm t).bind (fun t => parseEUFSteps tt n r (.refl t :: acc))
     | "Y" :: j :: r => j.toNat?.bind (fun j => parseEUFSteps tt n r (.symm j :: acc))
     | "N" :: j :: r => j.toNat?.bind (fun j => parseEUFSteps tt n r (.bnot j :: acc))
+    | "E" :: j :: r => j.toNat?.bind (fun j => parseEUFSteps tt n r (.eqT j :: acc))
     | "X" :: j :: k :: r => match j.toNat?, k.toNat? with
       | some j, some k => parseEUFSteps tt n r (.trans j k :: acc)
       | _, _ => none
